@@ -95,6 +95,14 @@ Theorem C02_same_sampling_any_unit : forall k1 u1 k2 u2 z1 z2 l,
 Proof. exact ut_same_sampling_any_unit. Qed.
 Print Assumptions C02_unit_independent.
 Print Assumptions C02_same_sampling_any_unit.
+(*     an axis rebuilt from a self-consistent axis is that axis (start, interval, duration, rate, unit) *)
+Theorem C02_from_axis_identical : forall d ax,
+  0 < ax_dt d -> ax_dur d = ax_n d * ax_dt d -> 0 <= ax_n d ->
+  ut_new (mk_ut_args (Some d) None None None None None UArgNone) = TOk ax ->
+  ax_n ax = ax_n d /\ ax_t0 ax = ax_t0 d /\ ax_dt ax = ax_dt d /\ ax_dur ax = ax_dur d /\
+  ax_rate ax = ax_rate d /\ ax_unit ax = ax_unit d.
+Proof. exact ut_from_axis_identical. Qed.
+Print Assumptions C02_from_axis_identical.
 (*     NOT proved (float reasoning): that an interval and its reciprocal rate yield identical axes;
        this is carried by the oracle and the correspondence only, and is refuted above 2^50 ps. *)
 
